@@ -14,6 +14,10 @@ def router_specs():
     return specs
 
 
+def accepts_specs():
+    return [TaskSpec("accepts[%s]" % w, "contracts.router", "task_accepts", (w,), replay_kind="router.accepts") for w in ("Driver", "Proxy")]
+
+
 def router_functions(chk):
     for fn in ("Router.__init__", "Router.register_device", "Router.register_client", "Router.unregister_client",
                "Router.process_message", "Router.process_enable_blob"):
@@ -33,8 +37,10 @@ def router_trust(chk):
 
 def run(tier, seed):
     chk = Check("C04", tier, seed)
-    chk.add_results(run_tasks(router_specs()))
+    chk.add_results(run_tasks(router_specs() + accepts_specs()))
     router_functions(chk)
+    chk.function("indi/device/driver.py", "Driver.accepts")
+    chk.function("indi/device/proxy.py", "Proxy.accepts")
     router_trust(chk)
     chk.min_obligations = 60
     return chk.finish()
